@@ -74,12 +74,27 @@ def plan(tier, seed):
                 if a["off"] + a["w"] == b["off"] and (a["name"] in synth.LINE_CONSTANTS) == (b["name"] in synth.LINE_CONSTANTS):
                     line = None if a["name"] in synth.LINE_CONSTANTS else 1
                     cases.append({"spec": sp, "devs": [["img0", "line", a["key"], {"hex": "ff" * a["w"]}, line], ["img0", "line", b["key"], {"hex": "fe" * b["w"]}, line]], "label": f"{level} pair {a['key']}+{b['key']} full width"})
+    if tier == "thorough":
+        # the metadata pass reads the line records in groups of rpc lines: every case again with small groups
+        extra = []
+        for c in cases:
+            for rpc in (1, 2):
+                extra.append({**c, "rpc": rpc, "label": f"{c['label']} rpc={rpc}"})
+        for level in ("1.5", "1.1"):
+            for L in (4, 5, 7):
+                for rpc in (1, 2, 3, L, 1024):
+                    extra.append({"spec": spec_for(level, L), "devs": [], "rpc": rpc, "label": f"{level} baseline L={L} rpc={rpc}"})
+        cases += extra
+    else:
+        for level in ("1.5", "1.1"):
+            for L, rpc in ((3, 1), (3, 2), (5, 2), (5, 3)):
+                cases.append({"spec": spec_for(level, L), "devs": [], "rpc": rpc, "label": f"{level} baseline L={L} rpc={rpc}"})
     return cases
 
 
 def execute(case):
     spec = treecheck.spec_from_case(case)
-    out = treecheck.check_spec(spec, only=["/imagery"])
+    out = treecheck.check_spec(spec, only=["/imagery"], open_kw={"records_per_chunk": case["rpc"]} if case.get("rpc") else None)
     fails = out["failures"]
     for f in fails:
         f["detail"] = f"{case['label']}: {f['detail']}"
